@@ -296,7 +296,7 @@ P_C12 == [][Holds(Props!C12_function_of_log) /\ Holds(Props!C12_reads_pure) /\ H
 P_C14 == [][Holds(Props!C14_ref) /\ Holds(Props!C14_visible) /\ Holds(Props!C14_epics_flat) /\ Holds(Props!C14_bad_refused)
             /\ Holds(Props!C14_compact_keeps)]_vars
 P_C15 == [][Holds(Props!C15_progress) /\ Holds(Props!C15_waits) /\ Holds(Props!C15_claim)]_vars
-P_C16 == [][Holds(Props!C16_one_value) /\ Holds(Props!C16_truth) /\ Holds(Props!C16_reads)]_vars
+P_C16 == [][Holds(Props!C16_one_value) /\ Holds(Props!C16_truth) /\ Holds(Props!C16_reads) /\ Holds(Props!C16_set_applied)]_vars
 P_C20 == [][Holds(Props!C20_only_grow) /\ Holds(Props!C20_confined) /\ Holds(Props!C20_live_only)
             /\ Holds(Props!C20_faithful)]_vars
 
